@@ -28,7 +28,7 @@ structure HalosReal (cf : Cfg K) : Prop where
 
 /-- the pointwise algebra behind the adjointness: integrand of ⟨H, curlE G⟩ minus integrand of ⟨curlH H, G⟩
 is `ref` times six summation-by-parts residues -/
-private theorem alg (ref dx dy dz wx wy wz sfx sfy sfz sbx sby sbz Hx Hy Hz Gx Gy Gz
+theorem alg (ref dx dy dz wx wy wz sfx sfy sfz sbx sby sbz Hx Hy Hz Gx Gy Gz
     NyGz NzGy NzGx NxGz NxGy NyGx PyHz PzHy PzHx PxHz PxHy PyHx : K)
     (h1 : wx * sfx = ref) (h2 : wy * sfy = ref) (h3 : wz * sfz = ref)
     (h4 : dx * sbx = ref) (h5 : dy * sby = ref) (h6 : dz * sbz = ref) :
